@@ -337,6 +337,9 @@ class J1939_21:
                 return
 
             num_packages_all = self._snd_buffer[buffer_hash]["num_packages"]
+            if 0 <= next_package_number < num_packages_all:
+                # continue with the packet the receiver asks for (it may request packets again)
+                self._snd_buffer[buffer_hash]['next_packet_to_send'] = next_package_number
             if num_packages > num_packages_all:
                 logger.debug("CTS: Allowed more packets %d than complete transmission %d", num_packages, num_packages_all)
                 num_packages = num_packages_all
